@@ -107,11 +107,12 @@ fn cb_rule(p: &PR) -> Arc<cb::Rule> {
     Arc::new(cb::Rule {
         id: format!("M{}", p.id),
         resource: name(p.res),
-        strategy: cb::BreakerStrategy::ErrorCount,
+        // key 12: a custom strategy whose generator (registered in run_case) reads the manager while it builds
+        strategy: if p.key == 12 { cb::BreakerStrategy::Custom(1) } else { cb::BreakerStrategy::ErrorCount },
         retry_timeout_ms: if valid { 1000 } else { 0 },
         min_request_amount: 1000 + p.key,
         stat_interval_ms: 1000 * ((p.key % 2) as u32 + 1),
-        threshold: 1000.0,
+        threshold: if p.key == 12 { 0.5 } else { 1000.0 },
         ..Default::default()
     })
 }
@@ -329,6 +330,15 @@ impl cb::StateChangeListener for DropListener {
 pub fn run_case(t: &mut Toks) -> Vec<i128> {
     let mut out = Vec::new();
     cb::register_state_change_listeners(vec![Arc::new(DropListener {})]);
+    // a custom breaker generator that calls back into read-only manager functions
+    let _ = cb::set_circuit_breaker_generator(
+        cb::BreakerStrategy::Custom(1),
+        Box::new(|rule: Arc<cb::Rule>, _stat| -> Arc<dyn cb::CircuitBreakerTrait> {
+            let _ = cb::get_rules_of_resource(&rule.resource);
+            let _ = cb::get_rules();
+            Arc::new(cb::ErrorCountBreaker::new(rule))
+        }),
+    );
     let np = t.usize();
     let pool: Vec<PR> = (0..np).map(|_| PR { id: t.u64(), res: t.u64(), key: t.u64() }).collect();
     let nsetup = t.usize();
